@@ -160,6 +160,19 @@ def body():
             c.violation(key, "consumer %s crashed, hung or tripped a sanitizer on a malformed object: %s" % (line["target"], str(san)[:500]), {"target": line["target"], "data": line["data"][:20000], "report": str(san)[:3000]})
         elif evs[0].get("rc") == 1:
             accepted += 1
+    # the same mutants under MemorySanitizer ("without using uninitialised memory"): quick takes every fifth (by position, so every target and every kind of edit is
+    # in it), thorough all.  (What this found on the unchanged tree: sm2_z256_point_from_hex ignoring a failed hex decode, an untested URI pointer in the
+    # CRLDistributionPoints reader -- fixes 0a53bca, 15b1dd3.)
+    sel = list(range(0, len(mlines), 5)) if q else list(range(len(mlines)))
+    resx = CL.run_script("fuzzdrv", ["fuzzdrv.c", "vh.c"], [mlines[i] for i in sel], variant="msan", tag="c06x", procs=16, timeout=1800)
+    for (line, evs, san), i in zip(resx, sel):
+        key = mmeta[i] + ":msan"
+        c.count(1, key)
+        if (san or not evs) and "rc=-14" in str(san) and huge_pbkdf2_count(line["data"]):
+            continue
+        if san or not evs:
+            c.violation(key, "consumer %s used uninitialised memory (MemorySanitizer), crashed or hung on a malformed object: %s" % (line["target"], str(san)[:500]), {"target": line["target"], "data": line["data"][:20000], "report": str(san)[:3000]})
+    c.cov["mutants_under_msan"] = len(sel)
     c.cov["mutants"] = len(mlines)
     c.cov["mutants_accepted_by_decoder"] = accepted
     c.cov["mutants_slow_by_pbkdf2_iteration_count"] = slow
